@@ -1,6 +1,7 @@
 (* C06 - Configured weights are honoured exactly.  Only statements here; proofs by `exact`. *)
 From Coq Require Import List ZArith String Permutation.
-From MV Require Import Gen.SrcTokens Model.WCluster Model.Edf Model.EdfHeap Proofs.WCluster Proofs.Edf Proofs.EdfHeap.
+From Coq Require Import QArith Qabs.
+From MV Require Import Gen.SrcTokens Model.WCluster Model.Edf Model.EdfHeap Proofs.WCluster Proofs.Edf Proofs.EdfHeap Proofs.EdfQ.
 Import ListNotations.
 Open Scope Z_scope.
 
@@ -81,3 +82,18 @@ Print Assumptions c06_heap_window.
 Example c06_heap_example :
   map fst (hs_run (hs_of_weights [1; 2; 4]) 7) = [2; 1; 2; 2; 0; 1; 2]%nat.
 Proof. vm_compute. reflexivity. Qed.
+
+(* The same bound in the rational form of the property text: |n_i/w_i - n_j/w_j| <= 1/w_i + 1/w_j. *)
+Theorem c06_edf_window_rational : forall ws pre s0 picks s1,
+  Forall (fun w => 0 < w) ws ->
+  edf_run (edf_of_weights ws) pre = Some s0 -> edf_run s0 picks = Some s1 ->
+  forall i j wi wj, nth_error ws i = Some wi -> nth_error ws j = Some wj ->
+  (Qabs ((count_pick i picks # Z.to_pos wi) - (count_pick j picks # Z.to_pos wj))
+     <= (1 # Z.to_pos wi) + (1 # Z.to_pos wj))%Q.
+Proof.
+  intros ws pre s0 picks s1 Hpos Hpre Hrun i j wi wj Hi Hj.
+  assert (Hwi : 0 < wi) by (rewrite Forall_forall in Hpos; apply Hpos; eapply nth_error_In; eassumption).
+  assert (Hwj : 0 < wj) by (rewrite Forall_forall in Hpos; apply Hpos; eapply nth_error_In; eassumption).
+  exact (window_q_form _ _ wi wj Hwi Hwj (edf_window_weights ws pre s0 picks s1 Hpos Hpre Hrun i j wi wj Hi Hj)).
+Qed.
+Print Assumptions c06_edf_window_rational.
